@@ -41,9 +41,21 @@ Within(dd) == \A i \in Slots : dd[i] <= W /\ -dd[i] <= W
 FirstEligible == {i \in Slots : Eligible(i) /\ \A j \in 1..(i - 1) : ~Eligible(j)}
 MaxDeficit == {i \in Slots : Eligible(i) /\ \A j \in Slots : Eligible(j) =>
                      (Ahead(i) > Ahead(j) \/ (Ahead(i) = Ahead(j) /\ i <= j))}
+\* the same rules with ties left open (floating point arithmetic may resolve an exact tie either way)
+MaxDeficitAnyTie == {i \in Slots : Eligible(i) /\ \A j \in Slots : Eligible(j) => Ahead(i) >= Ahead(j)}
+\* earliest deadline first: the eligible slot whose next selection is due first. The deadline of slot i is
+\* (count[i] + 1) / share[i] = n/W + (W - d[i]) / (W * w[i]); n/W is common to all slots, so the order of deadlines is
+\* a function of the deficits alone: (W - d[i]) * w[j] < (W - d[j]) * w[i].
+Earlier(i, j) == (W - d[i]) * w[j] < (W - d[j]) * w[i]
+Tied(i, j) == (W - d[i]) * w[j] = (W - d[j]) * w[i]
+Edf == {i \in Slots : Eligible(i) /\ \A j \in Slots : Eligible(j) => (Earlier(i, j) \/ (Tied(i, j) /\ i <= j))}
+EdfAnyTie == {i \in Slots : Eligible(i) /\ \A j \in Slots : Eligible(j) => (Earlier(i, j) \/ Tied(i, j))}
 AnyWithin == {i \in Slots : Within(After(i))}
 Pick == CASE Rule = "first" -> FirstEligible
           [] Rule = "maxdef" -> MaxDeficit
+          [] Rule = "maxdef-anytie" -> MaxDeficitAnyTie
+          [] Rule = "edf" -> Edf
+          [] Rule = "edf-anytie" -> EdfAnyTie
           [] OTHER -> AnyWithin
 
 Select(s) == s \in Pick /\ d' = After(s) /\ UNCHANGED w
